@@ -5,8 +5,8 @@ MODES = ["roundtrip:intt(ntt(x))", "roundtrip:ntt(intt(x))", "linearity:ntt", "l
 FAMS = ["all-ones", "zero", "alternating", "cq-1", "cq", "single", "uniform64", "canonical", "topbit", "mixed-extremal"]
 
 
-KCOUNT = {0: 60000, 1: 60000, 2: 60000, 3: 60000, 4: 60000, 5: 60000, 6: 50000, 7: 40000, 8: 32000, 9: 14000, 10: 5000, 11: 4400,
-          12: 2400, 13: 1500, 14: 900, 15: 640, 16: 480}
+KCOUNT = {0: 90000, 1: 90000, 2: 90000, 3: 90000, 4: 90000, 5: 90000, 6: 75000, 7: 60000, 8: 48000, 9: 21000, 10: 7500, 11: 6600,
+          12: 3600, 13: 2250, 14: 1350, 15: 960, 16: 720}
 KSPLIT = {13: 2, 14: 2, 15: 3, 16: 4}
 
 
@@ -16,7 +16,7 @@ def _jobs(tier):
     for k in range(0, 17):
         jobs.append(dict(sub="kernel", count=KCOUNT[k] * mult, fix=dict(k=k), split=KSPLIT.get(k, 1)))
     for k in range(1, 17):
-        jobs.append(dict(sub="module", count=geo(k, 16000, 8, 320) * mult, fix=dict(k=k), split=(2 if k >= 15 else 1)))
+        jobs.append(dict(sub="module", count=geo(k, 24000, 8, 480) * mult, fix=dict(k=k), split=(2 if k >= 15 else 1)))
     return jobs
 
 
